@@ -136,6 +136,7 @@ func (t *Target) Target() string {
 }
 
 func (t *Target) State() TargetState {
+	verifEmit("state_read", t)
 	t.inflightLock.Lock()
 	defer t.inflightLock.Unlock()
 
